@@ -225,6 +225,15 @@ def parseRoom (s : String) : Option Nat :=
 
 def roomRecord (s : St) : String := showResult (.next s true [])
 
+/-- `W<d>` (1..60): `d` seconds pass on the paused clock while the session is not polled -/
+def parseWait (s : String) : Option Nat :=
+  match s.toList with
+  | 'W' :: ds => (num (String.ofList ds) 60).bind fun d => if d == 0 then none else some d
+  | _ => none
+
+/-- the seconds a line lets pass without polling the session -/
+def waitSum (steps : List String) : Nat := (steps.filterMap parseWait).foldl (· + ·) 0
+
 /-- what of a step's output reaches the outgoing queue (`send_pdu` = `try_send`) -/
 def queued (room : Nat) : StepResult → StepResult
   | .next s ok outs => .next s ok (accepted room outs)
@@ -239,13 +248,17 @@ def runHistQ (cfg : Cfg) : St → Clock → Nat → List String → Option (List
     | none =>
       if w.startsWith "q" then none
       else if w == "T" then
-        -- `Session::tick()` with nothing pending but the timers (paused clock)
+        -- `Session::tick()` with nothing pending but the timers (paused clock); the record ends with the clock
         match tickTimer cfg s c with
         | .idle => if parseStepsOk rest then some ["idle"] else none
         | .tie => if parseStepsOk rest then some ["tie"] else none
         | .fired _ (.next s' ok outs) c' =>
-          (runHistQ cfg s' c' room rest).map (showResult (queued room (.next s' ok outs)) :: ·)
+          (runHistQ cfg s' c' room rest).map ((showResult (queued room (.next s' ok outs)) ++ s!" @{c'.now}") :: ·)
         | .fired _ r _ => if parseStepsOk rest then some [showResult r] else none
+      else if (parseWait w).isSome then
+        -- `W<d>`: the paused clock moves `d` seconds, the session is not polled
+        let c' := clockWait c ((parseWait w).getD 0)
+        (runHistQ cfg s c' room rest).map ((roomRecord s ++ s!" @{c'.now}") :: ·)
       else
       match parseStep w with
       | none => none
@@ -257,7 +270,7 @@ def runHistQ (cfg : Cfg) : St → Clock → Nat → List String → Option (List
 where
   parseStepsOk : List String → Bool
     | [] => true
-    | w :: rest => ((parseRoom w).isSome || w == "T" || (!(w.startsWith "q") && (parseStep w).isSome)) && parseStepsOk rest
+    | w :: rest => ((parseRoom w).isSome || w == "T" || (parseWait w).isSome || (!(w.startsWith "q") && (parseStep w).isSome)) && parseStepsOk rest
 
 def parseTickStep1 (s : String) : Option DTick :=
   if s == "c" then some (.one .closed)
@@ -300,8 +313,9 @@ def handle (ws : List String) : String :=
     if steps.isEmpty then "bad-op" else
     match parseCfg cfg, parseInit init with
     | some cfg, some s =>
-      -- attaching a stream waits for the socket: not on a line that lets the paused clock run
-      if steps.contains "T" && steps.contains "aA" then "bad-op" else
+      -- un-polled time stays below two hold intervals: the hold timer never has two ticks outstanding when the
+      -- session resets it (see `clockWait`)
+      if cfg.localHold != 0 && waitSum steps ≥ 2 * cfg.localHold then "bad-op" else
       match runHistQ cfg s (Clock.ofSt cfg s) pduCap steps with
       | some l => " ; ".intercalate l
       | none => "bad-op"
